@@ -254,6 +254,34 @@ fn run_seq_block(ctx: &Ctx, blk: (usize, usize, usize), tag: u64, sink: &mut Sin
     }
 }
 
+/// Thousands of queued chunks, drained completely, then more data (the queue's own storage has
+/// grown large by then), identity coding.
+pub fn deep_queue_histories() -> Vec<StreamCase> {
+    let mut v = Vec::new();
+    for (chunk, depth) in [(1usize, 1500u32), (1, 3000), (1, 6000), (2, 3000), (1, 20_000), (3, 9000)] {
+        for fresh in [false, true] {
+            let c = chunk as u32;
+            let mut case = StreamCase::raw(chunk, vec![Op::PollOnce, Op::WriteAll(depth * c), Op::PollAll, Op::WriteAll(c), Op::PollAll, Op::WriteAll(1), Op::Flush, Op::PollAll, Op::WriteAll(depth * c), Op::PollOnce, Op::PollAll, Op::Write(1), Op::Flush, Op::PollOnce]);
+            case.fresh_wakers = fresh;
+            v.push(case);
+        }
+    }
+    v
+}
+
+/// A reader that does not poll for a long run of small write+flush pairs, then drains.
+pub fn stalled_reader_ops(pairs: usize, size: u32) -> Vec<Op> {
+    let mut ops = Vec::new();
+    for _ in 0..pairs {
+        ops.push(Op::WriteAll(size));
+        ops.push(Op::Flush);
+    }
+    ops.extend([Op::WriteAll(size), Op::Flush, Op::PollAll, Op::WriteAll(size + 1), Op::Flush, Op::PollAll]);
+    ops
+}
+
+const STALLS: [(usize, usize, u32); 10] = [(8, 10, 1), (8, 40, 3), (64, 40, 10), (64, 100, 3), (4096, 40, 10), (4096, 100, 7), (4096, 300, 1), (65_536, 100, 10), (65_536, 1000, 5), (1000, 3000, 2)];
+
 /// (chunk size, bytes queued unread before the interesting part)
 const BACKLOGS: [(usize, u32); 8] = [(4096, 1 << 20), (4096, 9 << 20), (65_536, 9 << 20), (65_536, 40 << 20), (4096, 33 << 20), (7, 1 << 20), (1000, 17 << 20), (65_536, 1 << 20)];
 
@@ -282,12 +310,25 @@ pub fn c08_block(b: usize, sink: &mut Sink, judge: &Judge) {
                 sink.count("backlog_histories");
             }
         }
+        if b == n_seq {
+            for case in deep_queue_histories() {
+                exec(&case, sink, judge);
+                sink.count("deep_queue_histories");
+            }
+        }
+        for (chunk, pairs, size) in STALLS {
+            let mut case = StreamCase::raw(chunk, stalled_reader_ops(pairs, size));
+            case.fresh_wakers = pairs % 3 == 0;
+            exec(&case, sink, judge);
+            sink.count("stalled_reader_histories");
+        }
         return;
     }
     let blk = seq_space(&ctx, 4, 5).blocks[b];
     run_seq_block(&ctx, blk, 8, sink, &|c, ops, rng| {
         let mut case = StreamCase::raw(c, ops);
         case.via_parts = rng.chance(1, 2);
+        case.fresh_wakers = rng.chance(1, 2);
         if rng.chance(1, 8) {
             case.accept_encoding = Some(b"identity".to_vec());
         }
@@ -456,11 +497,12 @@ pub fn c09_block(b: usize, sink: &mut Sink, judge: &Judge) {
         let blk = sp.blocks[b];
         run_seq_block(&ctx, blk, 9, sink, &|c, ops, rng| {
             if blk.1 > 0 {
-                [1u32, 6, 9].iter().map(|l| StreamCase::gzip(c, *l, ops.clone())).collect()
+                [1u32, 6, 9].iter().map(|l| { let mut k = StreamCase::gzip(c, *l, ops.clone()); k.fresh_wakers = *l == 6; k }).collect()
             } else {
                 let mut case = StreamCase::gzip(if c > 100 || rng.chance(1, 2) { c } else { *rng.pick(&[1usize, 2, 5, 17]) }, rng.range(1, 9) as u32, ops);
                 case.payload = *rng.pick(&[Payload::Hash, Payload::Zeros, Payload::Text]);
                 case.via_parts = rng.chance(1, 2);
+                case.fresh_wakers = rng.chance(1, 2);
                 vec![case]
             }
         }, judge);
@@ -483,6 +525,17 @@ pub fn c09_block(b: usize, sink: &mut Sink, judge: &Judge) {
             let mut case = StreamCase::gzip(chunk, level, ops);
             case.payload = [Payload::Hash, Payload::Zeros, Payload::Text][(i + k) % 3];
             exec(&case, sink, judge);
+        }
+        // a stalled reader: many small write+flush pairs without a poll, then a drain
+        for (pairs, size) in [(10usize, 1u32), (40, 10), (100, 3), (300, 7)] {
+            if ctx.leg.slow() && pairs > 10 {
+                continue;
+            }
+            let mut case = StreamCase::gzip(chunk, level, stalled_reader_ops(pairs, size));
+            case.payload = [Payload::Text, Payload::Hash][pairs % 2];
+            case.fresh_wakers = pairs == 40;
+            exec(&case, sink, judge);
+            sink.count("stalled_reader_histories");
         }
     }
 }
@@ -508,7 +561,7 @@ impl Prop for C09 {
         replay(&c09_judge, case, sink);
     }
     fn floors(&self, _: &Ctx) -> Vec<(&'static str, u64)> {
-        vec![("members_verified", 5000), ("flush_decodability_checked", 1000), ("empty_payload_members", 10)]
+        vec![("members_verified", 5000), ("flush_decodability_checked", 1000), ("empty_payload_members", 10), ("stalled_reader_histories", 100)]
     }
     fn assumptions(&self) -> Vec<String> {
         vec!["inflate is flate2::Decompress (raw); header, trailer, CRC-32 and ISIZE are checked by the harness's own code; the thorough tier re-checks recorded streams with Python's zlib".into()]
@@ -547,7 +600,7 @@ fn c17_run(n: &NegCase, sink: &mut Sink) -> (Verdict, Option<u64>, Value) {
     let mut first_hdrs: Option<Vec<(String, Vec<u8>)>> = None;
     for method in ["GET", "POST", "HEAD"] {
         for via_parts in [false, true] {
-            let case = StreamCase { method: method.into(), accept_encoding: n.accept_encoding.clone(), chunk: n.chunk, gzip_level: n.level, via_parts, payload: Payload::Text, ops: vec![Op::WriteAll(300)], extra_polls: 1 };
+            let case = StreamCase { method: method.into(), accept_encoding: n.accept_encoding.clone(), chunk: n.chunk, gzip_level: n.level, via_parts, payload: Payload::Text, ops: vec![Op::WriteAll(300)], extra_polls: 1, fresh_wakers: false };
             let o = match run_stream(&case) {
                 Some(o) => o,
                 None => return (Verdict::DontCare("inexpressible".into()), None, json!(null)),
@@ -623,7 +676,7 @@ fn c17_many_live(k: usize, sink: &mut Sink) {
         let mut live = Vec::new();
         for i in 0..n {
             let gz = i % 3 != 2;
-            let case = StreamCase { method: "GET".into(), accept_encoding: if gz { Some(b"gzip".to_vec()) } else { None }, chunk: 4096, gzip_level: Some(1 + (i % 9) as u32), via_parts: i % 2 == 0, payload: Payload::Text, ops: vec![], extra_polls: 0 };
+            let case = StreamCase { method: "GET".into(), accept_encoding: if gz { Some(b"gzip".to_vec()) } else { None }, chunk: 4096, gzip_level: Some(1 + (i % 9) as u32), via_parts: i % 2 == 0, payload: Payload::Text, ops: vec![], extra_polls: 0, fresh_wakers: false };
             match build(&case) {
                 Some((resp, Some(w))) => live.push((gz, resp, w)),
                 _ => return Some("build returned no writer".into()),
